@@ -44,11 +44,14 @@ Discs == {"native", "notfound", "unsupp"}   \* server/discover: SDK handler / me
                                             \* refused with -32022 listing legacy versions only
 
 \* wrap: the server transport is wrapped in a ProtocolVersionSupporter that admits exactly adv
+\* early: the client's first request is already on its way while Server.Connect is still asking the transport
+\* which versions it supports (a client that was started before the server, e.g. over stdio); the outcome the
+\* property demands does not depend on it
 Wrapped ==
-  { [req |-> r, tr |-> t, json |-> FALSE, store |-> FALSE, wrap |-> TRUE, adv |-> a, disc |-> "native", prior |-> "none"] :
-      r \in Requests, t \in {"mem", "io"}, a \in SUBSET V }
+  { [req |-> r, tr |-> t, json |-> FALSE, store |-> FALSE, wrap |-> TRUE, adv |-> a, disc |-> "native", prior |-> "none", early |-> e] :
+      r \in Requests, t \in {"mem", "io"}, a \in SUBSET V, e \in BOOLEAN }
 Unwrapped ==
-  { [req |-> r, tr |-> t, json |-> j, store |-> s, wrap |-> FALSE, adv |-> V, disc |-> d, prior |-> p] :
+  { [req |-> r, tr |-> t, json |-> j, store |-> s, wrap |-> FALSE, adv |-> V, disc |-> d, prior |-> p, early |-> FALSE] :
       r \in Requests, t \in Transports, j \in BOOLEAN, s \in BOOLEAN, d \in Discs, p \in Priors }
 ValidCase(c) == /\ c.tr \notin HttpOpts => (~c.json /\ ~c.store /\ c.prior = "none")
                 /\ c.prior # "none" => c.disc = "native"
